@@ -186,7 +186,10 @@ pub fn write_dso_debug_stream(
     // Count the number of loaded DSOs
     let mut dso_vec = Vec::new();
     let mut curr_map = debug_entry.r_map;
-    while curr_map != 0 {
+    // The list lives in the target's memory: it may have been corrupted into a cycle, so
+    // stop as soon as an entry is seen for the second time.
+    let mut seen = std::collections::HashSet::new();
+    while curr_map != 0 && seen.insert(curr_map) {
         let link_map_data = PtraceDumper::copy_from_process(
             blamed_thread,
             curr_map,
